@@ -98,6 +98,7 @@ fn validate(input: &str) -> Result<(), InvalidDomainConstraint> {
     };
     let mut total_length = 0;
     let mut is_template = false;
+    let mut n_parameters = 0;
 
     for (label_index, label) in labels.enumerate() {
         total_length += 1; // For the dot separator
@@ -260,6 +261,16 @@ fn validate(input: &str) -> Result<(), InvalidDomainConstraint> {
         }
 
         is_template |= is_label_template;
+        if is_label_template {
+            n_parameters += 1;
+        }
+    }
+
+    if n_parameters > MAX_N_PARAMETERS {
+        return Err(InvalidDomainConstraint::TooManyParameters {
+            original: input.to_string(),
+            n_parameters,
+        });
     }
 
     total_length -= 1; // We overcounted dot separators
@@ -275,9 +286,16 @@ fn validate(input: &str) -> Result<(), InvalidDomainConstraint> {
     Ok(())
 }
 
+/// The router we rely on, `matchit`, can't handle (it panics) patterns with more parameters than this.
+const MAX_N_PARAMETERS: usize = 25;
+
 #[derive(Debug)]
 pub(crate) enum InvalidDomainConstraint {
     Empty,
+    TooManyParameters {
+        original: String,
+        n_parameters: usize,
+    },
     TooLong {
         original: String,
         length: usize,
@@ -337,6 +355,15 @@ impl std::fmt::Display for InvalidDomainConstraint {
             }
             InvalidDomainConstraint::Empty => {
                 write!(f, "Domain constraints can't be empty.")
+            }
+            InvalidDomainConstraint::TooManyParameters {
+                original,
+                n_parameters,
+            } => {
+                write!(
+                    f,
+                    "`{original}` has too many domain parameters. A domain constraint can have at most {MAX_N_PARAMETERS} parameters, but this one has {n_parameters}."
+                )
             }
             InvalidDomainConstraint::TooLong {
                 original,
